@@ -261,6 +261,33 @@ Definition adopts (d : osm) (r : relation) : list Z :=
   else [].
 Definition adopted (d : osm) (id : Z) : bool := existsb (fun r => memZ id (adopts d r)) (relations d).
 
+(* ---- the packed FeatureID: where it loses information (input only) ----
+   osm.FeatureID keeps 40 bits of a ref under a type code.  buildPolygon reads the identity of its
+   feature back out of tagObject.FeatureID() (tagObject = the relation, or the outer way an
+   old-style relation adopts), and ctx.relationMember is keyed by packed ids.
+   [packed_ok d]: (1) every multipolygon/boundary relation and each of its outer way members has
+   an id in [0,2^40); (2) no member entry packs to the same FeatureID as a DIFFERENT element of the
+   data set (node 2^44+k looks like node k, node -5 like way -5).  Ids of nodes, ways and other
+   relations are otherwise arbitrary int64.  The negation is the known-finding class
+   polygon-id-outside-packed-range. *)
+Definition in40 (r : Z) : bool := (0 <=? r) && (r <? 1099511627776).
+Definition poly_in_range (r : relation) : bool :=
+  in40 (r_id r) && forallb (fun m => in40 (m_ref m)) (outer_members r).
+Definition poly_ids_ok (d : osm) : bool :=
+  forallb (fun r => negb (is_mp r) || poly_in_range r) (relations d).
+(* the keys Convert looks up in the membership map: every node, way and relation of the data set,
+   and the outer way members (an adopted way need not be in the data set) *)
+Definition element_keys (d : osm) : list (etype * Z) :=
+  map (fun n => (TNode, n_id n)) (nodes d) ++ map (fun w => (TWay, w_id w)) (ways d)
+  ++ map (fun r => (TRel, r_id r)) (relations d)
+  ++ flat_map (fun r => map (fun m => (TWay, m_ref m)) (outer_members r)) (relations d).
+Definition member_keys (d : osm) : list (etype * Z) :=
+  flat_map (fun r => map (fun m => (m_type m, m_ref m)) (r_members r)) (relations d).
+Definition key_clash (d : osm) : bool :=
+  existsb (fun e => existsb (fun m => (fid (fst m) (snd m) =? fid (fst e) (snd e)) && negb (key_eqb m e))
+                            (member_keys d)) (element_keys d).
+Definition packed_ok (d : osm) : bool := poly_ids_ok d && negb (key_clash d).
+
 (* ---- W completeness: which ways are absorbed by a relation (input only) ----
    A way of the data gets no feature of its own exactly when some relation absorbs it:
    - a route relation has it as a way member and the way has no interesting tag;
@@ -334,6 +361,7 @@ Definition feature_ok (o : opts) (d : osm) (inwaypass : bool) (f : feature) : bo
                 match f_geom f with GPoly _ | GMultiPoly _ => true | _ => false end)
       | None => false
       end
+  | TNone => false   (* a feature is a node, a way or a relation *)
   end.
 
 (* a way-typed feature comes from the way pass, or is an adopted outer way reported by its
